@@ -13,6 +13,7 @@ From Tevec Require Import Base.Num Base.XR Spec.Stats Spec.Stats2 Model.SortCmp 
      Model.Agg Model.HalfLife Model.Composite
      Proofs.OrderXR Proofs.Quantile Proofs.QuantileMono Proofs.Partition Proofs.Rank Proofs.AggXR
      Proofs.HalfLife Proofs.Composite Proofs.Spearman Proofs.HalfLifeExec.
+From Tevec Require Import Model.NullView Proofs.EncRank Proofs.Composite2 Proofs.HalfLifeProbes.
 Import ListNotations.
 Local Open Scope R_scope.
 
@@ -321,6 +322,423 @@ Proof.
   apply above_half_out; [reflexivity|cbn; lia].
 Qed.
 
+
+(* ================================ the other element types ============================================ *)
+(* (a) winsorize, vcorr (Pearson and Spearman) and half_life are ENCODING INDEPENDENT — every carrier A (so also bit for
+   bit at binary64), every two null dictionaries, every two series with the same option view (C08's SameView): EQUAL
+   results.  winsorize returns an f64 series and vcorr an f64 whatever the element type (the input is cast element by
+   element: `iter_cast::<f64>()` in map.rs:60/76/89, `v.cast()` in the MAD, `.f64()` inside the aggregations and vrank). *)
+Theorem C20_winsorize_encoding :
+  forall {A : Type} {NA : Num A} {NF : NumFloor A} {T1 T2 : Type} (D1 : IsNone T1 A) (D2 : IsNone T2 A)
+         (m : wmethod) (p : option A) (xs1 : list T1) (xs2 : list T2),
+    SameView D1 D2 xs1 xs2 -> winsorize (DT := D1) m p xs1 = winsorize (DT := D2) m p xs2.
+Proof. intros A NA NF T1 T2 D1 D2 m p xs1 xs2. apply winsorize_view. Qed.
+
+Theorem C20_vcorr_encoding :
+  forall {A : Type} {NA : Num A} {T1 T2 : Type} (D1 : IsNone T1 A) (D2 : IsNone T2 A)
+         (X1 : IsNoneX T1 A) (X2 : IsNoneX T2 A) (mp : option nat) (spearman : bool)
+         (xs1 ys1 : list T1) (xs2 ys2 : list T2),
+    EqbView D1 D2 X1 X2 -> SameView D1 D2 xs1 xs2 -> SameView D1 D2 ys1 ys2 ->
+    vcorr (DT := D1) (DX := X1) mp spearman xs1 ys1 = vcorr (DT := D2) (DX := X2) mp spearman xs2 ys2.
+Proof. intros A NA T1 T2 D1 D2 X1 X2 mp sp xs1 ys1 xs2 ys2. apply vcorr_view. Qed.
+
+Theorem C20_half_life_encoding :
+  forall {T1 T2 : Type} (D1 : IsNone T1 XR) (D2 : IsNone T2 XR) (dm1 : NullDict T1 XR) (dm2 : NullDict T2 XR)
+         (nv1 : T1) (nv2 : T2) (mp : option nat) (xs1 : list T1) (xs2 : list T2),
+    MapOps.none dm1 = Ok nv1 -> MapOps.none dm2 = Ok nv2 ->
+    Num.is_none (IsNone := D1) nv1 = true -> Num.is_none (IsNone := D2) nv2 = true ->
+    SameView D1 D2 xs1 xs2 ->
+    half_life_exec (DT := D1) dm1 mp xs1 = half_life_exec (DT := D2) dm2 mp xs2.
+Proof.
+  intros T1 T2 D1 D2 dm1 dm2 nv1 nv2 mp xs1 xs2 Hn1 Hn2 Hnv1 Hnv2 HS.
+  exact (half_life_exec_view D1 D2 dm1 dm2 nv1 nv2 Hn1 Hn2 Hnv1 Hnv2 mp xs1 xs2 HS).
+Qed.
+
+(* (b) the two other element types at option R:
+     enc_opt xs  : list (option XR)  the Option<f64> series  Some (Some r) | None  rendering the float series xs
+                                     (dictionary DOpt = IsNone_option: None is the null)
+     cast_i32 zs : list XR           the i32 series zs seen through its exact f64 values Some (IZR z), with the never-null
+                                     dictionary DInt = IsNone_never (what Run/RunC20.v executes for i32)
+   they encode the same logical series as the f64 series, `==` agrees, an integer series has no null *)
+Theorem C20_encodings_option_i32 :
+  (forall xs : list XR, SameView DOpt IsNoneXR (enc_opt xs) xs) /\
+  (forall zs : list Z, SameView DInt IsNoneXR (cast_i32 zs) (cast_i32 zs)) /\
+  EqbView DOpt IsNoneXR DXOpt IsNoneXXR /\ EqbView DInt IsNoneXR DXInt IsNoneXXR /\
+  (forall zs : list Z, valid (cast_i32 zs) = map IZR zs).
+Proof.
+  split; [exact enc_opt_view|]. split; [exact cast_i32_view|]. split; [exact eqb_view_opt_xr|].
+  split; [exact eqb_view_int_xr|exact valid_cast_i32].
+Qed.
+
+(* (c) hence every f64 theorem above holds verbatim for an Option<f64> series and for an i32 series (over its cast) *)
+Theorem C20_winsorize_quantile_opt :
+  forall (xs : list XR) (q : R) (s : list R),
+    0 <= q <= 1 / 2 -> Sorted Rle s -> Permutation s (valid xs) -> s <> [] ->
+    let lo := quantile_spec s q Linear in let hi := quantile_spec s (1 - q) Linear in
+    winsorize (DT := DOpt) WQuantile (Some (Some q)) (enc_opt xs) = Ok (Some (clip_series lo hi xs)) /\ lo <= hi.
+Proof. intros xs q s Hq Hs HP Hne. rewrite winsorize_opt. exact (C20_winsorize_quantile xs q s Hq Hs HP Hne). Qed.
+
+Theorem C20_winsorize_quantile_i32 :
+  forall (zs : list Z) (q : R) (s : list R),
+    0 <= q <= 1 / 2 -> Sorted Rle s -> Permutation s (map IZR zs) -> s <> [] ->
+    let lo := quantile_spec s q Linear in let hi := quantile_spec s (1 - q) Linear in
+    winsorize (DT := DInt) WQuantile (Some (Some q)) (cast_i32 zs) = Ok (Some (clip_series lo hi (cast_i32 zs))) /\ lo <= hi.
+Proof.
+  intros zs q s Hq Hs HP Hne. rewrite winsorize_i32. rewrite <- valid_cast_i32 in HP.
+  exact (C20_winsorize_quantile (cast_i32 zs) q s Hq Hs HP Hne).
+Qed.
+
+Theorem C20_winsorize_median_opt :
+  forall (xs : list XR) (k : R) (s s' : list R),
+    0 <= k -> Sorted Rle s -> Permutation s (valid xs) -> s <> [] ->
+    let med := quantile_spec s (1 / 2) Linear in
+    Sorted Rle s' -> Permutation s' (map (fun x => Rabs (x - med)) (valid xs)) ->
+    let mad := quantile_spec s' (1 / 2) Linear in
+    winsorize (DT := DOpt) WMedian (Some (Some k)) (enc_opt xs)
+      = Ok (Some (clip_series (med - k * mad) (med + k * mad) xs))
+    /\ 0 <= mad /\ med - k * mad <= med + k * mad.
+Proof.
+  intros xs k s s' Hk Hs HP Hne med Hs' HP'. rewrite winsorize_opt.
+  exact (C20_winsorize_median xs k s s' Hk Hs HP Hne Hs' HP').
+Qed.
+
+Theorem C20_winsorize_median_i32 :
+  forall (zs : list Z) (k : R) (s s' : list R),
+    0 <= k -> Sorted Rle s -> Permutation s (map IZR zs) -> s <> [] ->
+    let med := quantile_spec s (1 / 2) Linear in
+    Sorted Rle s' -> Permutation s' (map (fun x => Rabs (x - med)) (map IZR zs)) ->
+    let mad := quantile_spec s' (1 / 2) Linear in
+    winsorize (DT := DInt) WMedian (Some (Some k)) (cast_i32 zs)
+      = Ok (Some (clip_series (med - k * mad) (med + k * mad) (cast_i32 zs)))
+    /\ 0 <= mad /\ med - k * mad <= med + k * mad.
+Proof.
+  intros zs k s s' Hk Hs HP Hne med Hs' HP'. rewrite winsorize_i32. rewrite <- valid_cast_i32 in HP, HP'.
+  exact (C20_winsorize_median (cast_i32 zs) k s s' Hk Hs HP Hne Hs' HP').
+Qed.
+
+Theorem C20_winsorize_sigma_opt :
+  forall (xs : list XR) (k : R),
+    0 <= k ->
+    let V := valid xs in
+    let lo := meanR V - k * sqrt (samplevarR V) in let hi := meanR V + k * sqrt (samplevarR V) in
+    winsorize (DT := DOpt) WSigma (Some (Some k)) (enc_opt xs)
+      = Ok (Some (if (length V <? 2)%nat then xs
+                  else if Rle_dec (popvarR V) EPS then xs
+                  else clip_series lo hi xs))
+    /\ lo <= hi.
+Proof. intros xs k Hk. rewrite winsorize_opt. exact (C20_winsorize_sigma xs k Hk). Qed.
+
+Theorem C20_winsorize_sigma_i32 :
+  forall (zs : list Z) (k : R),
+    0 <= k ->
+    let V := map IZR zs in
+    let lo := meanR V - k * sqrt (samplevarR V) in let hi := meanR V + k * sqrt (samplevarR V) in
+    winsorize (DT := DInt) WSigma (Some (Some k)) (cast_i32 zs)
+      = Ok (Some (if (length V <? 2)%nat then cast_i32 zs
+                  else if Rle_dec (popvarR V) EPS then cast_i32 zs
+                  else clip_series lo hi (cast_i32 zs)))
+    /\ lo <= hi.
+Proof.
+  intros zs k Hk. rewrite winsorize_i32, <- valid_cast_i32. exact (C20_winsorize_sigma (cast_i32 zs) k Hk).
+Qed.
+
+Theorem C20_winsorize_no_valid_opt :
+  forall (m : wmethod) (p : R) (xs : list XR),
+    wparam_in_scope m p -> valid xs = [] ->
+    winsorize (DT := DOpt) m (Some (Some p)) (enc_opt xs) = Ok (Some xs).
+Proof. intros m p xs Hp Hv. rewrite winsorize_opt. exact (C20_winsorize_no_valid m p xs Hp Hv). Qed.
+
+(* an integer series has no null: "no valid element" is the empty series *)
+Theorem C20_winsorize_no_valid_i32 :
+  forall (m : wmethod) (p : R) (zs : list Z),
+    wparam_in_scope m p -> (valid (cast_i32 zs) = [] <-> zs = []) /\
+    (zs = [] -> winsorize (DT := DInt) m (Some (Some p)) (cast_i32 zs) = Ok (Some [])).
+Proof.
+  intros m p zs Hp. split.
+  - rewrite valid_cast_i32. split; [apply map_eq_nil|intros ->; reflexivity].
+  - intros ->. rewrite winsorize_i32. exact (C20_winsorize_no_valid m p [] Hp eq_refl).
+Qed.
+
+Theorem C20_winsorize_acts_as_clip_opt :
+  forall (m : wmethod) (p : R) (xs : list XR),
+    wparam_in_scope m p ->
+    exists r, winsorize (DT := DOpt) m (Some (Some p)) (enc_opt xs) = Ok (Some r) /\
+              (r = xs \/ exists lo hi, lo <= hi /\ r = clip_series lo hi xs).
+Proof. intros m p xs Hp. rewrite winsorize_opt. exact (C20_winsorize_acts_as_clip m p xs Hp). Qed.
+
+Theorem C20_winsorize_acts_as_clip_i32 :
+  forall (m : wmethod) (p : R) (zs : list Z),
+    wparam_in_scope m p ->
+    exists r, winsorize (DT := DInt) m (Some (Some p)) (cast_i32 zs) = Ok (Some r) /\
+              (r = cast_i32 zs \/ exists lo hi, lo <= hi /\ r = clip_series lo hi (cast_i32 zs)).
+Proof. intros m p zs Hp. rewrite winsorize_i32. exact (C20_winsorize_acts_as_clip m p (cast_i32 zs) Hp). Qed.
+
+(* positions of the output are positions of the f64 view xs of the Option series: length, nullness, order *)
+Theorem C20_winsorize_order_preserving_opt :
+  forall (m : wmethod) (p : R) (xs : list XR),
+    wparam_in_scope m p ->
+    exists r, winsorize (DT := DOpt) m (Some (Some p)) (enc_opt xs) = Ok (Some r) /\ length r = length (enc_opt xs) /\
+      (forall i, nth_error (enc_opt xs) i = Some None <-> nth_error r i = Some None) /\
+      (forall i j x x' y y', nth_error (enc_opt xs) i = Some (Some (Some x)) -> nth_error (enc_opt xs) j = Some (Some (Some x')) ->
+         nth_error r i = Some (Some y) -> nth_error r j = Some (Some y') -> x <= x' -> y <= y').
+Proof.
+  intros m p xs Hp. rewrite winsorize_opt, length_enc_opt.
+  destruct (C20_winsorize_order_preserving m p xs Hp) as (r & Hr & Hlen & Hnull & Hord).
+  exists r. split; [exact Hr|]. split; [exact Hlen|]. split.
+  - intros i. rewrite <- Hnull. apply enc_opt_nth_null.
+  - intros i j x x' y y' Hi Hj. apply Hord; apply enc_opt_nth_valid; assumption.
+Qed.
+
+Theorem C20_winsorize_order_preserving_i32 :
+  forall (m : wmethod) (p : R) (zs : list Z),
+    wparam_in_scope m p ->
+    exists r, winsorize (DT := DInt) m (Some (Some p)) (cast_i32 zs) = Ok (Some r) /\ length r = length zs /\
+      (forall i, nth_error r i <> Some None) /\
+      (forall i j z z' y y', nth_error zs i = Some z -> nth_error zs j = Some z' ->
+         nth_error r i = Some (Some y) -> nth_error r j = Some (Some y') -> (z <= z')%Z -> y <= y').
+Proof.
+  intros m p zs Hp. rewrite winsorize_i32.
+  destruct (C20_winsorize_order_preserving m p (cast_i32 zs) Hp) as (r & Hr & Hlen & Hnull & Hord).
+  exists r. split; [exact Hr|]. split; [rewrite Hlen; apply length_cast_i32|]. split.
+  - intros i Hi. apply Hnull in Hi. unfold cast_i32 in Hi. rewrite nth_error_map in Hi.
+    destruct (nth_error zs i); discriminate.
+  - intros i j z z' y y' Hi Hj Hy Hy' Hzz.
+    apply (Hord i j (IZR z) (IZR z') y y'); try assumption;
+      try (unfold cast_i32; rewrite nth_error_map; rewrite ?Hi, ?Hj; reflexivity).
+    apply IZR_le. exact Hzz.
+Qed.
+
+(* ---- Spearman ---- *)
+Theorem C20_rank_is_average_rank_opt :
+  forall (pct rev : bool) (xs : list XR),
+    vrank (DT := DOpt) (DX := DXOpt) pct rev (enc_opt xs) = map Some (ranks pct rev xs).
+Proof. intros pct rev xs. rewrite vrank_opt. apply C20_rank_is_average_rank. Qed.
+
+Theorem C20_rank_is_average_rank_i32 :
+  forall (pct rev : bool) (zs : list Z),
+    vrank (DT := DInt) (DX := DXInt) pct rev (cast_i32 zs) = map Some (ranks pct rev (cast_i32 zs)).
+Proof. intros pct rev zs. rewrite vrank_i32. apply C20_rank_is_average_rank. Qed.
+
+Theorem C20_spearman_opt :
+  forall (mp : option nat) (xs ys : list XR),
+    vcorr (DT := DOpt) (DX := DXOpt) mp true (enc_opt xs) (enc_opt ys)
+    = Some (vcorr_pearson (DT := IsNoneXR) (DT2 := IsNoneXR) (fun x : XR => x)
+              (mp_default mp (length (enc_opt xs))) (ranks false false xs) (ranks false false ys)).
+Proof. intros mp xs ys. rewrite vcorr_opt, length_enc_opt. apply C20_spearman. Qed.
+
+Theorem C20_spearman_i32 :
+  forall (mp : option nat) (xs ys : list Z),
+    vcorr (DT := DInt) (DX := DXInt) mp true (cast_i32 xs) (cast_i32 ys)
+    = Some (vcorr_pearson (DT := IsNoneXR) (DT2 := IsNoneXR) (fun x : XR => x)
+              (mp_default mp (length xs)) (ranks false false (cast_i32 xs)) (ranks false false (cast_i32 ys))).
+Proof. intros mp xs ys. rewrite vcorr_i32, <- (length_cast_i32 xs). apply C20_spearman. Qed.
+
+Theorem C20_spearman_textbook_opt :
+  forall (mp : option nat) (xs ys : list XR),
+    let P := rpairs (DT := IsNoneXR) (DT2 := IsNoneXR) (fun x : XR => x) (ranks false false xs) (ranks false false ys) in
+    vcorr (DT := DOpt) (DX := DXOpt) mp true (enc_opt xs) (enc_opt ys)
+    = Some (if (length P <? Nat.max (mp_default mp (length (enc_opt xs))) 2)%nat then None
+            else if Rlt_dec EPS (popvarR (xs_of P)) then
+                   (if Rlt_dec EPS (popvarR (ys_of P)) then Some (corrR P) else None)
+                 else None).
+Proof. intros mp xs ys. rewrite vcorr_opt, length_enc_opt. exact (C20_spearman_textbook mp xs ys). Qed.
+
+Theorem C20_spearman_textbook_i32 :
+  forall (mp : option nat) (xs ys : list Z),
+    let P := rpairs (DT := IsNoneXR) (DT2 := IsNoneXR) (fun x : XR => x)
+                    (ranks false false (cast_i32 xs)) (ranks false false (cast_i32 ys)) in
+    vcorr (DT := DInt) (DX := DXInt) mp true (cast_i32 xs) (cast_i32 ys)
+    = Some (if (length P <? Nat.max (mp_default mp (length xs)) 2)%nat then None
+            else if Rlt_dec EPS (popvarR (xs_of P)) then
+                   (if Rlt_dec EPS (popvarR (ys_of P)) then Some (corrR P) else None)
+                 else None).
+Proof.
+  intros mp xs ys. rewrite vcorr_i32, <- (length_cast_i32 xs). exact (C20_spearman_textbook mp (cast_i32 xs) (cast_i32 ys)).
+Qed.
+
+Theorem C20_spearman_invariant_opt :
+  forall (mp : option nat) (f g : R -> R) (xs ys : list XR),
+    strict_mono f -> strict_mono g ->
+    vcorr (DT := DOpt) (DX := DXOpt) mp true (map (option_map (option_map f)) (enc_opt xs))
+                                             (map (option_map (option_map g)) (enc_opt ys))
+    = vcorr (DT := DOpt) (DX := DXOpt) mp true (enc_opt xs) (enc_opt ys).
+Proof. intros mp f g xs ys Hf Hg. rewrite !enc_opt_map, !vcorr_opt. apply C20_spearman_invariant; assumption. Qed.
+
+(* an integer map fz that is the restriction of a strictly increasing real function f (3z + 1, z^3, ...) *)
+Theorem C20_spearman_invariant_i32 :
+  forall (mp : option nat) (f g : R -> R) (fz gz : Z -> Z) (xs ys : list Z),
+    strict_mono f -> strict_mono g ->
+    (forall z, IZR (fz z) = f (IZR z)) -> (forall z, IZR (gz z) = g (IZR z)) ->
+    vcorr (DT := DInt) (DX := DXInt) mp true (cast_i32 (map fz xs)) (cast_i32 (map gz ys))
+    = vcorr (DT := DInt) (DX := DXInt) mp true (cast_i32 xs) (cast_i32 ys).
+Proof.
+  intros mp f g fz gz xs ys Hf Hg Ef Eg. rewrite !vcorr_i32, (cast_i32_map f fz xs Ef), (cast_i32_map g gz ys Eg).
+  apply C20_spearman_invariant; assumption.
+Qed.
+
+(* half_life on the Option<f64> rendering = half_life on the f64 series (so C20_half_life_total_f64 etc. carry over) *)
+Theorem C20_half_life_opt :
+  forall (mp : option nat) (xs : list XR),
+    half_life_exec (DT := DOpt) (dict_opt (nisnan (A := XR))) mp (enc_opt xs)
+    = half_life_exec (DT := IsNoneXR) (fdict (A := XR)) mp xs.
+Proof. exact half_life_exec_opt. Qed.
+
+(* ================================ half_life: which lags are probed ==================================== *)
+Local Close Scope R_scope.
+(* half_life_tr = the two loops of the model with the list of probed lags recorded; erasing the trace gives the model *)
+Theorem C20_half_life_trace_erasure :
+  forall (above : nat -> bool) (len : nat), fst (half_life_tr above len) = half_life above len.
+Proof. exact half_life_tr_fst. Qed.
+
+(* first_fail above j : the oracle is true at 2^0 .. 2^(j-1) and false at 2^j.  Exactly one such j exists. *)
+Theorem C20_half_life_first_fail_unique :
+  forall (above : nat -> bool) (len : nat),
+    (forall k, len <= k -> above k = false) -> 1 <= len ->
+    exists j, first_fail above j /\ forall j', first_fail above j' -> j' = j.
+Proof.
+  intros above len Hout Hlen. destruct (first_fail_exists above len Hout Hlen) as (j & F).
+  exists j. split; [exact F|]. intros j' F'. apply (first_fail_unique above j' j F' F).
+Qed.
+
+(* THE PROBE SEQUENCE.  The doubling phase probes exactly 1, 2, 4, .., 2^j (j = the first exponent at which the
+   oracle is false; no lag is skipped for any other reason), then the bisection of (prev_pow j, min(2^j, len-1)] probes
+   exactly the midpoints determined by the answers; the result is where that bisection ends. *)
+Theorem C20_half_life_probe_sequence_oracle :
+  forall (above : nat -> bool) (len j : nat),
+    (forall k, len <= k -> above k = false) -> 1 <= len -> first_fail above j ->
+    let n := Nat.min (2 ^ j) (len - 1) in let last := prev_pow j in
+    half_life_tr above len = (Some (Ok (bis_end above (n - last) n last)), pows 0 (S j) ++ mids above (n - last) n last).
+Proof. intros above len j Hout Hlen F. exact (half_life_tr_exact above len Hout Hlen j F). Qed.
+
+(* every bisection probe is strictly inside the bracket; the end is inside, one above a lag where the oracle is true (or
+   the lower end), and the upper end or a lag where the oracle is false *)
+Theorem C20_half_life_bisection :
+  forall (above : nat -> bool) (k n last : nat),
+    last <= n -> n - last <= k ->
+    Forall (fun m => last < m < n) (mids above k n last) /\
+    exists l', l' <= bis_end above k n last <= l' + 1 /\ last <= l' /\ bis_end above k n last <= n /\
+               (l' = last \/ above l' = true) /\
+               (bis_end above k n last = n \/ above (bis_end above k n last) = false) /\
+               (last < n -> l' < bis_end above k n last).
+Proof. intros above k n last H1 H2. split; [apply mids_inside|apply bis_end_spec; assumption]. Qed.
+
+(* the result is the cap len-1 or a genuine down-crossing of the oracle, inside the bracket of the doubling phase *)
+Theorem C20_half_life_crossing :
+  forall (above : nat -> bool) (len j r : nat),
+    (forall k, len <= k -> above k = false) -> 1 <= len -> first_fail above j ->
+    half_life above len = Some (Ok r) ->
+    prev_pow j <= r <= Nat.min (2 ^ j) (len - 1) /\ (prev_pow j < len - 1 -> prev_pow j < r) /\
+    (r = len - 1 \/ (above r = false /\ (r = 1 \/ above (r - 1) = true))).
+Proof. intros above len j r Hout Hlen F Hr. exact (half_life_crossing above len Hout Hlen j r F Hr). Qed.
+
+(* the executable half_life, oracle = vcorr_pearson(xs, vshift(xs, lag), min_periods) > 0.5: every element type whose
+   T::none() is a null, every series, EVERY min_periods (explicit, omitted, 0, 1, > len) *)
+Theorem C20_half_life_probe_sequence :
+  forall {T : Type} {DT : IsNone T XR} (dm : NullDict T XR) (mp : option nat) (nv : T) (xs : list T),
+    MapOps.none dm = Ok nv -> Num.is_none nv = true -> xs <> [] ->
+    let len := length xs in
+    let ab := above_half (DT := DT) (mp_default mp len) nv xs in
+    exists j r,
+      first_fail ab j /\
+      half_life_exec (DT := DT) dm mp xs = Some (Ok r) /\
+      (let n := Nat.min (2 ^ j) (len - 1) in let last := prev_pow j in
+       half_life_tr ab len = (Some (Ok r), pows 0 (S j) ++ mids ab (n - last) n last) /\
+       Forall (fun m => last < m < n) (mids ab (n - last) n last)) /\
+      prev_pow j <= r <= Nat.min (2 ^ j) (len - 1) /\ (prev_pow j < len - 1 -> prev_pow j < r) /\
+      (r = len - 1 \/ (ab r = false /\ (r = 1 \/ ab (r - 1) = true))).
+Proof. intros T DT dm mp nv xs. apply half_life_exec_probes. Qed.
+
+Local Open Scope R_scope.
+(* the oracle itself.  lag_pairs xs L = the complete pairs (x[i+L], x[i]); `canonical` = a non-null element is a number
+   (always true for f64; no Some(NaN) for Option<f64>, DESIGN 5.4) *)
+Theorem C20_autocorr_textbook :
+  forall {T : Type} {DT : IsNone T XR} (nv : T) (mp : nat) (xs : list T) (lag : nat),
+    Num.is_none nv = true -> canonical (@idA XR) xs ->
+    let P := lag_pairs xs lag in
+    autocorr (DT := DT) mp nv xs lag
+    = if (length P <? Nat.max mp 2)%nat then None
+      else if Rlt_dec EPS (popvarR (xs_of P)) then
+             (if Rlt_dec EPS (popvarR (ys_of P)) then Some (corrR P) else None)
+           else None.
+Proof. intros T DT nv mp xs lag Hnv Hc. exact (autocorr_textbook nv Hnv mp xs lag Hc). Qed.
+
+(* null iff fewer than max(min_periods, 2) complete pairs remain or one side has no spread: a lag leaving EXACTLY
+   min_periods (>= 2) pairs is evaluated *)
+Theorem C20_autocorr_defined_iff_enough_pairs :
+  forall {T : Type} {DT : IsNone T XR} (nv : T) (mp : nat) (xs : list T) (lag : nat),
+    Num.is_none nv = true -> canonical (@idA XR) xs ->
+    let P := lag_pairs xs lag in
+    autocorr (DT := DT) mp nv xs lag = None <->
+    (length P < Nat.max mp 2)%nat \/ ~ EPS < popvarR (xs_of P) \/ ~ EPS < popvarR (ys_of P).
+Proof. intros T DT nv mp xs lag Hnv Hc. exact (autocorr_defined_iff nv Hnv mp xs lag Hc). Qed.
+
+Theorem C20_above_half_iff :
+  forall {T : Type} {DT : IsNone T XR} (nv : T) (mp : nat) (xs : list T) (lag : nat),
+    Num.is_none nv = true -> canonical (@idA XR) xs ->
+    let P := lag_pairs xs lag in
+    above_half (DT := DT) mp nv xs lag = true <->
+    (Nat.max mp 2 <= length P)%nat /\ EPS < popvarR (xs_of P) /\ EPS < popvarR (ys_of P) /\ 1 / 2 < corrR P.
+Proof. intros T DT nv mp xs lag Hnv Hc. exact (above_half_iff nv Hnv mp xs lag Hc). Qed.
+
+(* a series without nulls: the pairs at lag L are all len - L overlapping pairs *)
+Theorem C20_autocorr_all_valid :
+  forall (mp : nat) (rs : list R) (lag : nat),
+    let P := combine (skipn lag rs) rs in
+    length P = (length rs - lag)%nat /\
+    (autocorr (DT := IsNoneXR) mp None (map Some rs) lag = None <->
+     (length rs - lag < Nat.max mp 2)%nat \/ ~ EPS < popvarR (xs_of P) \/ ~ EPS < popvarR (ys_of P)) /\
+    (above_half (DT := IsNoneXR) mp None (map Some rs) lag = true <->
+     (Nat.max mp 2 <= length rs - lag)%nat /\ EPS < popvarR (xs_of P) /\ EPS < popvarR (ys_of P) /\ 1 / 2 < corrR P).
+Proof.
+  intros mp rs lag P. split; [unfold P; rewrite combine_length, skipn_length; lia|].
+  split; [apply autocorr_all_valid_defined_iff|apply above_half_all_valid_iff].
+Qed.
+
+(* ================================ non-vacuity (new theorems) ========================================= *)
+Example C20_ex_enc_opt :
+  enc_opt [Some 4; None; Some 1; Some 2] = [Some (Some 4); None; Some (Some 1); Some (Some 2)] /\
+  cast_i32 [4; -1; 2]%Z = [Some 4; Some (-1); Some 2].
+Proof. split; reflexivity. Qed.
+
+(* the Option<f64> run of C20_ex_winsorize_quantile: the output is an f64 series, the None became a NaN *)
+Example C20_ex_winsorize_quantile_opt :
+  winsorize (DT := DOpt) WQuantile (Some (Some (1 / 2))) [Some (Some 4); None; Some (Some 1); Some (Some 2)]
+  = Ok (Some [Some 2; None; Some 2; Some 2]).
+Proof. rewrite <- C20_ex_winsorize_quantile. apply (winsorize_opt WQuantile (Some (Some (1 / 2))) [Some 4; None; Some 1; Some 2]). Qed.
+
+Example C20_ex_int_maps :
+  (forall z, IZR (3 * z + 1) = 3 * IZR z + 1) /\ (forall z, IZR (z * z * z) = IZR z * IZR z * IZR z).
+Proof. split; intros z; rewrite ?plus_IZR, ?mult_IZR; reflexivity. Qed.
+
+Local Close Scope R_scope.
+(* above for lags 1, 2: j = 2 (4 is the first power of two that fails); probes 1, 2, 4 then the midpoint 3 *)
+Example C20_ex_probe_sequence :
+  first_fail (fun k => k <? 3) 2 /\
+  half_life_tr (fun k => k <? 3) 10 = (Some (Ok 3), [1; 2; 4; 3]) /\
+  half_life_tr (fun k => k <? 17) 20 = (Some (Ok 17), [1; 2; 4; 8; 16; 32; 17]) /\
+  half_life_tr (fun k => k <? 30) 20 = (Some (Ok 19), [1; 2; 4; 8; 16; 32; 17; 18]).
+Proof.
+  split; [split; [reflexivity|intros i Hi; destruct i as [|[|i]]; [reflexivity|reflexivity|lia]]|].
+  repeat split; reflexivity.
+Qed.
+
+(* lag 1 of [1; 2; 4] leaves exactly two pairs (2,1), (4,2): with min_periods = 2 the correlation IS evaluated (not null);
+   with min_periods = 3 it is null *)
+Example C20_ex_autocorr_exactly_min_periods :
+  (autocorr (DT := IsNoneXR) 2 None (map Some [1; 2; 4]) 1 <> None /\
+   autocorr (DT := IsNoneXR) 3 None (map Some [1; 2; 4]) 1 = None)%R.
+Proof.
+  split.
+  - intros H. apply (autocorr_all_valid_defined_iff 2 [1; 2; 4]%R 1) in H.
+    cbn [skipn combine length Nat.sub Nat.max xs_of ys_of map fst snd] in H.
+    assert (E1 : popvarR [2; 4]%R = 1%R).
+    { unfold popvarR, cmom, devsum, meanR, nR, sumR. cbn [length map fold_right INR]. field. }
+    assert (E2 : popvarR [1; 2]%R = (1 / 4)%R).
+    { unfold popvarR, cmom, devsum, meanR, nR, sumR. cbn [length map fold_right INR]. field. }
+    rewrite E1, E2 in H. unfold EPS in H. destruct H as [H|[H|H]]; [lia|apply H; lra|apply H; lra].
+  - apply (autocorr_all_valid_defined_iff 3 [1; 2; 4]%R 1). left. cbn. lia.
+Qed.
+
 Print Assumptions C20_winsorize_quantile.
 Print Assumptions C20_winsorize_median.
 Print Assumptions C20_winsorize_sigma.
@@ -345,3 +763,38 @@ Print Assumptions C20_half_life_total_f64.
 Print Assumptions C20_half_life_threshold.
 Print Assumptions C20_autocorr_beyond_length.
 Print Assumptions C20_half_life_int_none_panics.
+Print Assumptions C20_winsorize_encoding.
+Print Assumptions C20_vcorr_encoding.
+Print Assumptions C20_half_life_encoding.
+Print Assumptions C20_encodings_option_i32.
+Print Assumptions C20_winsorize_quantile_opt.
+Print Assumptions C20_winsorize_quantile_i32.
+Print Assumptions C20_winsorize_median_opt.
+Print Assumptions C20_winsorize_median_i32.
+Print Assumptions C20_winsorize_sigma_opt.
+Print Assumptions C20_winsorize_sigma_i32.
+Print Assumptions C20_winsorize_no_valid_opt.
+Print Assumptions C20_winsorize_no_valid_i32.
+Print Assumptions C20_winsorize_acts_as_clip_opt.
+Print Assumptions C20_winsorize_acts_as_clip_i32.
+Print Assumptions C20_winsorize_order_preserving_opt.
+Print Assumptions C20_winsorize_order_preserving_i32.
+Print Assumptions C20_rank_is_average_rank_opt.
+Print Assumptions C20_rank_is_average_rank_i32.
+Print Assumptions C20_spearman_opt.
+Print Assumptions C20_spearman_i32.
+Print Assumptions C20_spearman_textbook_opt.
+Print Assumptions C20_spearman_textbook_i32.
+Print Assumptions C20_spearman_invariant_opt.
+Print Assumptions C20_spearman_invariant_i32.
+Print Assumptions C20_half_life_opt.
+Print Assumptions C20_half_life_trace_erasure.
+Print Assumptions C20_half_life_first_fail_unique.
+Print Assumptions C20_half_life_probe_sequence_oracle.
+Print Assumptions C20_half_life_bisection.
+Print Assumptions C20_half_life_crossing.
+Print Assumptions C20_half_life_probe_sequence.
+Print Assumptions C20_autocorr_textbook.
+Print Assumptions C20_autocorr_defined_iff_enough_pairs.
+Print Assumptions C20_above_half_iff.
+Print Assumptions C20_autocorr_all_valid.
